@@ -17,7 +17,7 @@ from vcheck import core
 from vcheck.val import Exc, cbool, from_jsonable, jsonable, zlit
 
 PROP = "C07"
-COQ_TARGETS = ["theories/Model/CalcRun.vo"]
+COQ_TARGETS = ["theories/Model/CalcScope.vo", "theories/Model/CalcRun.vo"]
 MOD = 10007
 TOL = 1e-9
 
@@ -34,6 +34,19 @@ def source_has_finally() -> bool:
     if "_update_suspended" not in body or "yield" not in body:
         raise core.CheckError("updates_postponed no longer has the modelled shape")
     return re.search(r"^\s*finally\s*:", body, flags=re.M) is not None
+
+
+def source_export_chrono() -> bool:
+    """does _InputDefn.get_param_rules emit the rules in creation order of the settings (proposed fix C07-3)
+    rather than in order of the first cell of each group?  fail-closed reading of the source text"""
+    txt = (core.REPO / "src/cogent3/recalculation/definition.py").read_text()
+    m = re.search(r"def get_param_rules\(self\):(.*?)\n    def |def get_param_rules\(self\):(.*?)\nclass ", txt, flags=re.S)
+    if not m:
+        raise core.CheckError("cannot locate _InputDefn.get_param_rules")
+    body = m.group(1) or m.group(2)
+    if "scoped" not in body or "get_param_rule_dict" not in body:
+        raise core.CheckError("get_param_rules no longer has the modelled shape")
+    return "serial" in body
 
 
 # ------------------------------------------------------------------ plain-Python oracle: evaluate the DAG from scratch
@@ -319,12 +332,21 @@ def lf_setting(rng, model, edges, bins=False):
     sc = rng.random()
     E = None if sc < 0.3 else [rng.choice(edges)] if sc < 0.65 else sorted(rng.sample(edges, rng.randint(2, min(3, len(edges)))))
     at_bound = rng.random() < 0.35            # a value sitting exactly on a bound (0.0 for lengths)
+    const = rng.random() < 0.25
+    beyond = at_bound and not const and rng.random() < 0.3      # a free value beyond a bound must be clipped to it
     if w < 0.6 or not pars:
         v = rng.choice([0.0, 0.0, 0.0, 10.0]) if at_bound else round(rng.uniform(0.01, 1.5), 3)
-        return dict(what="par", par="length", edges=E, value=v, const=rng.random() < 0.25, indep=rng.random() < 0.6)
+        if beyond:
+            v = rng.choice([-0.25, 12.5])
+        return dict(what="par", par="length", edges=E, value=v, const=const, indep=rng.random() < 0.6)
     v = (rng.choice([1e-6, 1e-6, 1e6]) if model == "HKY85" else 1e-6) if at_bound else round(rng.uniform(0.3, 6.0), 3)
-    # with rate-heterogeneity bins an independent rule would also split the parameter by bin (not tracked by the oracle)
-    return dict(what="par", par=rng.choice(pars), edges=E, value=v, const=rng.random() < 0.25, indep=(not bins) and rng.random() < 0.4)
+    if beyond:
+        v = rng.choice([1e-7, 2e6]) if model == "HKY85" else 1e-7
+    # with rate-heterogeneity bins a rule can also be scoped by bin, and an independent rule splits the parameter by bin too
+    B = None
+    if bins and rng.random() < 0.4:
+        B = [rng.choice(["bin0", "bin1"])]
+    return dict(what="par", par=rng.choice(pars), edges=E, bins=B, value=v, const=const, indep=rng.random() < 0.4)
 
 
 def lf_case(rng, block, raising=False):
@@ -373,7 +395,7 @@ def lf_exhaustive_block(tier):
     free -> constant -> free, batched block, optimiser session with undo, motif probabilities)"""
     tree, edges = TREES[0]
     spec = dict(tree=tree, model="HKY85", length=60, aln_seed=2)
-    par = lambda **kw: dict(dict(what="par", edges=None, const=False, indep=False), **kw)
+    par = lambda **kw: dict(dict(what="par", edges=None, bins=None, const=False, indep=False), **kw)
     alphabet = [
         dict(op="set", s=par(par="kappa", value=3.0)),
         dict(op="set", s=par(par="kappa", value=3.0, const=True)),
@@ -385,11 +407,25 @@ def lf_exhaustive_block(tier):
         dict(op="set", s=dict(what="mprobs", value=[0.1, 0.2, 0.3, 0.4])),
         dict(op="set", s=par(par="length", edges=["c"], value=0.0, indep=True)),            # free, exactly on the lower bound
         dict(op="set", s=par(par="length", edges=["b"], value=0.0, const=True)),            # constant 0
+        dict(op="set", s=par(par="length", edges=["a", "c"], value=12.5)),                  # beyond the upper bound: clipped to 10
         dict(op="calc", steps=[["one", 1, 0.1], ["bound", 2, "lo"], ["bound", 0, "hi"]]),   # session ends on two bounds
     ]
     depth = 2 if tier == "quick" else 3
-    return [dict(kind="lf", block="exhaustive", spec=spec, edges=edges, ops=[dict(o) for o in hist] + [dict(op="roundtrip")])
-            for hist in itertools.product(alphabet, repeat=depth)]
+    cases = [dict(kind="lf", block="exhaustive", spec=spec, edges=edges, ops=[dict(o) for o in hist] + [dict(op="roundtrip")])
+             for hist in itertools.product(alphabet, repeat=depth)]
+    # scopes over two dimensions (edge x bin): every sequence of rules tying / splitting / fixing sub-scopes
+    spec2 = dict(tree=tree, model="HKY85", length=60, aln_seed=1, bins=2)
+    alpha2 = [
+        dict(op="set", s=par(par="kappa", value=2.0)),                                            # everything tied
+        dict(op="set", s=par(par="kappa", edges=["a"], bins=["bin0"], value=5.0)),                # one corner
+        dict(op="set", s=par(par="kappa", edges=["a", "b"], value=3.0, indep=True)),              # split by edge AND bin
+        dict(op="set", s=par(par="kappa", bins=["bin1"], value=1.5, const=True)),                 # a constant slab
+        dict(op="set", s=par(par="kappa", edges=["b", "c"], bins=["bin0"], value=4.0)),           # a tied sub-box
+        dict(op="calc", steps=[["one", 2, 0.1], ["bound", 3, "lo"]]),
+    ]
+    cases += [dict(kind="lf", block="exhaustive-bins", spec=spec2, edges=edges, ops=[dict(o) for o in hist])
+              for hist in itertools.product(alpha2, repeat=depth)]
+    return cases
 
 
 # ------------------------------------------------------------------ rendering for Coq
@@ -524,7 +560,7 @@ def check_lf(rep, c, ir, stats):
                       dict(case=c, observed_impl=ir, broken="a valid history made the likelihood function raise or hang"))
         return
     raised = False
-    for k, (tag, lnl, f_lnl, nfp, f_nfp, extra, rt) in enumerate(ir):
+    for k, (tag, lnl, f_lnl, nfp, f_nfp, extra, rt, tabs) in enumerate(ir):
         stats["lf_steps"] += 1
         if tag == "postponed-raise":
             raised = True
@@ -570,6 +606,8 @@ def check_lf(rep, c, ir, stats):
             rbad = "nfp"
         elif rt["worst"] > TOL:
             rbad = "param"
+        if rbad and not raised and rbad != "probability-vector" and any(non_box_groups(t["cells"]) for t in tabs.values()):
+            rbad = "non-box-tie-group"      # the exported scope of a tie group is the bounding box of its cells
         if rbad and not raised:
             rep.violation(f"lf:roundtrip:{rbad}", dict(case=dict(c, ops=c["ops"][:k]), step=k, expected_by_spec=dict(lnL=lnl, nfp=nfp),
                                                         observed_impl=dict(lnL=rt["lnL"], nfp=rt["nfp"], worst_param=rt["which"]),
@@ -609,18 +647,163 @@ def run_rule_model(rep):
     return bad
 
 
+# ------------------------------------------------------------------ scope tables: real definitions vs Model.CalcScope
+
+DIMS = ("edge", "bin", "locus")
+
+
+def non_box_groups(cells):
+    """plain check: groups of a table whose cell set is not the product of its projections"""
+    groups = {}
+    for k, idx, *_ in cells:
+        groups.setdefault(idx, []).append(tuple(k))
+    keys = {tuple(k) for k, *_ in cells}
+    bad = []
+    for idx, ks in groups.items():
+        proj = [sorted({k[d] for k in ks}) for d in range(len(ks[0]))]
+        box = {k for k in keys if all(k[d] in proj[d] for d in range(len(k)))}
+        if box != set(ks):
+            bad.append(idx)
+    return bad
+
+
+def scope_model_cases(c, ir, fin, chrono):
+    """for one likelihood-function history: one model case per numeric parameter.
+    returns [(par, coq term, expected observations per step)]"""
+    if isinstance(ir, dict) or not ir or len(ir[0]) < 8:
+        return []
+    out = []
+    # align the operations with the records (record 0 = init)
+    steps = []
+    for o in c["ops"]:
+        if o["op"] == "set":
+            steps.append(("rules", [o["s"]] if o["s"]["what"] == "par" else []))
+        elif o["op"] == "postponed":
+            if o["raises"] and not fin:
+                break                      # the tables are stale from here on (reported by the oracle)
+            steps.append(("rules", [x for x in o["body"] if x["what"] == "par"]))
+        elif o["op"] == "calc":
+            steps.append(("calc", None))
+        else:
+            steps.append(("rules", []))
+    steps = steps[: len(ir) - 1]
+    for par, t0 in ir[0][7].items():
+        dims = t0["dims"]
+        cats = {d: sorted({k[dims.index(d)] for k, *_ in t0["cells"]}) for d in dims}
+        floats = {t0["lower"], t0["upper"]}
+        for rec in ir[: len(steps) + 1]:
+            for tab in (rec[7][par], rec[6]["tables"][par]):
+                for _, _, _, lo, v, hi, *_ in tab["cells"]:
+                    floats.update(x for x in (lo, v, hi) if x is not None)
+            for r in rec[6]["canon"].get(par, []):
+                floats.update(x for x in (r["value"], r["lower"], r["upper"]) if x is not None)
+        for kind, rules in steps:
+            for r in rules or []:
+                if r["par"] == par:
+                    floats.add(float(r["value"]))
+        rank = {x: i for i, x in enumerate(sorted(floats))}
+
+        def cnum(k):
+            return tuple(cats[d].index(k[dims.index(d)]) if d in dims else 0 for d in DIMS)
+
+        def row(cell):
+            k, idx, const, lo, v, hi = cell[:6]
+            return list(cnum(k)) + [idx, const, None if lo is None else rank[lo], rank[v], None if hi is None else rank[hi]]
+
+        def obs(rec):
+            tab, rt = rec[7][par], rec[6]
+            rules = []
+            for r in rt["canon"].get(par, []):
+                sc = [[cats[d].index(x) for x in r["scope"][d]] if d in r["scope"] else None for d in DIMS]
+                rules.append(sc + [r["indep"], r["const"], rank[r["value"]], None if r["lower"] is None else rank[r["lower"]],
+                                   None if r["upper"] is None else rank[r["upper"]]])
+            new = rt["tables"][par]
+            return [[row(x) for x in tab["cells"]], tab["nfp"], rules, [[row(x) for x in new["cells"]], new["nfp"]]]
+
+        def zopt(x):
+            return "None" if x is None else f"(Some {zlit(x)})"
+
+        def zl_opt(names, d):
+            if not names or d not in dims:
+                return "None"
+            return "(Some [" + ";".join(str(cats[d].index(n)) for n in names) + "])"
+
+        ops, marks = [], []
+        ok = True
+        for j, (kind, rules) in enumerate(steps):
+            if kind == "calc":
+                tab = ir[j + 1][7][par]
+                upd = ";".join(f"(({','.join(map(str, cnum(k)))}), {zlit(rank[v])})" for k, _, const, _, v, *_ in tab["cells"] if not const)
+                ops.append(f"ZUpdate [{upd}]")
+            else:
+                mine = [r for r in rules if r["par"] == par]
+                if any(r.get("bins") and "bin" not in dims for r in mine):
+                    ok = False
+                    break
+                for r in mine:
+                    ind = "None" if r.get("const") else f"(Some {cbool(bool(r.get('indep')))})"
+                    ops.append(f"ZRule (({zl_opt(r.get('edges'), 'edge')}, {zl_opt(r.get('bins'), 'bin')}, None), {ind}, {cbool(bool(r.get('const')))}, "
+                               f"(Some {zlit(rank[float(r['value'])])}), None, None)")
+                if not mine:
+                    ops.append("ZUpdate []")
+            marks.append(len(ops))      # index (1-based) of the model observation that closes this step
+        if not ok:
+            continue
+        # identity of the initial settings: creation order when the source exposes it (chrono export), else group index
+        serials = sorted({x[6] for x in t0["cells"] if len(x) > 6 and x[6] is not None})
+        ident = (lambda x: serials.index(x[6])) if chrono and serials else (lambda x: x[1])
+        t0z = ";".join(f"(({','.join(map(str, cnum(x[0])))}), ({ident(x)},{cbool(x[2])},{zlit(rank[x[3]] if x[3] is not None else rank[x[4]])},"
+                       f"{zlit(rank[x[4]])},{zlit(rank[x[5]] if x[5] is not None else rank[x[4]])}))" for x in t0["cells"])
+        term = (f"AScope ({zlit(rank[t0['lower']])}, {zlit(rank[t0['upper']])}, {cbool(t0['indep_default'])}, {cbool(chrono)}, "
+                f"[{t0z}], [{';'.join(ops)}])")
+        expected = [obs(ir[0])] + [obs(ir[j + 1]) for j in range(len(steps))]
+        out.append((par, term, expected, [0] + marks))
+    return out
+
+
+def check_scope_tables(rep, lfs, impl_l, fin, chrono, stats):
+    """model (vm_compute) vs the real definitions: table, nfp, exported rules, imported table after every step"""
+    todo = []
+    for ci, (c, ir) in enumerate(zip(lfs, impl_l)):
+        for par, term, expected, marks in scope_model_cases(c, ir, fin, chrono):
+            todo.append((ci, par, term, expected, marks))
+    if not todo:
+        return []
+    res = core.coq_eval(PROP, ["Model.Calc", "Model.CalcScope", "Model.CalcRun"], "run_any", [t[2] for t in todo], "anycase", shard=60, tag="s")
+    dis = []
+    for (ci, par, term, expected, marks), mr in zip(todo, res):
+        stats["scope_cases"] += 1
+        for j, (exp, mk) in enumerate(zip(expected, marks)):
+            if not isinstance(mr, list) or mk >= len(mr):
+                got = mr if not isinstance(mr, list) else mr[-1]
+            else:
+                got = mr[mk]
+            stats["scope_steps"] += 1
+            stats["scope_cells"] += len(exp[0])
+            if chrono and isinstance(got, list) and len(got) == 4:
+                got = [got[0], got[1], sorted(got[2], key=repr), got[3]]
+                exp = [exp[0], exp[1], sorted(exp[2], key=repr), exp[3]]
+            if got != exp:
+                which = next((n for n, (a, b) in zip(("table", "nfp", "exported-rules", "imported-table"), zip(got, exp)) if a != b), "step") \
+                    if isinstance(got, list) and len(got) == 4 else "failed"
+                dis.append(dict(key=f"scope:{which}", case=lfs[ci], parameter=par, step=j, observed_impl=jsonable(exp), model_output=jsonable(got)))
+                break
+    return dis
+
+
 # ------------------------------------------------------------------ the check
 
 def new_stats():
     return dict(steps=0, undo_hits=0, recycled_evals=0, exceptions=0, outside_domain_steps=0, lf_steps=0, lf_calc_steps=0,
                 roundtrips=0, rt_params=0, rules=0, rules_init_zero=0, rules_init_at_lower=0, rules_init_at_upper=0,
-                rules_const_zero=0, rules_vector_with_zero=0, nontrivial=set())
+                rules_const_zero=0, rules_vector_with_zero=0, scope_cases=0, scope_steps=0, scope_cells=0, nontrivial=set())
 
 
 def run(tier: str, seed: int) -> int:
     rep = core.Report(PROP, tier, seed)
     rng = random.Random(seed * 7919 + 7)
     fin = source_has_finally()
+    chrono = source_export_chrono()
     pr = core.proof_stage(PROP, COQ_TARGETS)
     core.proof_coverage(rep, pr, "make theories/Properties/C07.vo theories/Model/CalcRun.vo && coqc gen/assum_C07.v (Print Assumptions)", [
         "cell functions are abstract (Section variables f/h); the theorems hold for every choice; None = the calc raised "
@@ -634,7 +817,9 @@ def run(tier: str, seed: int) -> int:
         "controller model: one value per definition (a definition's per-scope value list is one abstract value), defn.update() total",
         "floating point, numba kernels, matrix exponentials of the real likelihood functions are outside the theorems; they are "
         "sampled by the newly-built-function oracle with relative tolerance 1e-9",
-        f"updates_postponed variant read from the source text: finally={fin}",
+        "scope-table model: one numeric parameter, dimensions (edge, bin, locus), plain category lists (no EACH/ALL wrappers); Setting "
+        "identity = creation order; correspondence maps the floats of a case to integers order-preservingly",
+        f"variants read from the source text (fail-closed): updates_postponed finally={fin}; get_param_rules creation-order export={chrono}",
     ])
     rep.assumptions += ["change vectors name optimisable parameters (index < number of OptPars), each at most once; histories that "
                         "set a ConstCell through Calculator.change or repeat an index are compared model-vs-implementation only"]
@@ -679,6 +864,8 @@ def run(tier: str, seed: int) -> int:
             disagreements.append(d)
     for c, ir in zip(lfs, impl_l):
         check_lf(rep, c, ir, stats)
+    if model is not None:
+        disagreements += check_scope_tables(rep, lfs, impl_l, fin, chrono, stats)
 
     blocks = {}
     for c in cases:
@@ -701,13 +888,15 @@ def run(tier: str, seed: int) -> int:
                                 exported_rules_init_on_lower_bound=stats["rules_init_at_lower"],
                                 exported_rules_init_on_upper_bound=stats["rules_init_at_upper"],
                                 exported_rules_constant_exactly_0=stats["rules_const_zero"],
-                                exported_probability_vectors_with_a_zero=stats["rules_vector_with_zero"]),
+                                exported_probability_vectors_with_a_zero=stats["rules_vector_with_zero"],
+                                scope_table_model_cases=stats["scope_cases"], scope_table_steps_compared=stats["scope_steps"],
+                                scope_table_cells_compared=stats["scope_cells"]),
         model_impl_disagreements=len(disagreements),
         partial=PARTIAL,
         exhaustive=False,
         exhaustive_block=f"synthetic Calculator: all histories of length {3 if quick else 4} over a 7-operation alphabet on "
                          f"{len(EX_GRAPHS)} fixed graphs; likelihood function: all sequences of {2 if quick else 3} operations over a "
-                         "10-operation alphabet (HKY85, 3 taxa; incl. free length exactly 0.0, constant 0, optimiser session ending on bounds), "
+                         "11-operation alphabet (HKY85, 3 taxa; incl. free length exactly 0.0, constant 0, a value beyond a bound, optimiser session ending on bounds), "
                          "rule export/import round trip after every step",
     )
     core.conclude(rep, pr, f"{len(cases)} histories against evaluation from scratch", disagreements[:5],
@@ -716,13 +905,15 @@ def run(tier: str, seed: int) -> int:
 
 
 PARTIAL = [
-    "rule export/import: proved for ONE setting (rules_roundtrip_setting: import (export s) = s incl. values exactly 0 / on a bound; "
-    "rules_export_keeps_every_key); the assembly of rules over scopes (get_param_rules grouping by edges/bins, is_independent, "
-    "global-rule pruning) and the probability-vector adjustment of the export are sampled: after EVERY step of every LF history the "
-    "exported rules are applied to a new function and lnL, nfp and every parameter value are compared",
-    "set_alignment / set_motif_probs / scope changes of set_param_rule: the theorems cover them only as 'assignment to a leaf "
-    "definition followed by the dirty-set update'; the mapping from these API calls to leaf assignments (scope.py assign_all, "
-    "interpret_scopes, _update_from_assignments) is sampled by the LF histories against a newly built function, not modelled",
+    "rule export/import: proved per setting (rules_roundtrip_setting, rules_export_keeps_every_key) and at the scope level for ONE "
+    "numeric parameter (scope_rules_roundtrip: same cell->value map, partition and nfp) under the hypothesis that every tie group is a "
+    "box and that bounds are the parameter's class bounds; the non-box case is refuted (scope_roundtrip_nonbox_refuted). Probability-vector "
+    "parameters (mprobs, bprobs) and the summation of nfp over parameters are sampled: after EVERY step of every LF history the exported "
+    "rules are applied to a new function and lnL, nfp and every parameter value are compared",
+    "scope tables: scope_history_refines covers rules with an explicit value and bounds None / the class bounds; rules with value=None "
+    "(mean of the current values) or user-changed bounds are modelled (executable, compared by vm_compute) but not covered by the theorem",
+    "set_alignment / set_motif_probs: the mapping of these calls to leaf assignments is sampled by the LF histories against a newly "
+    "built function, not modelled; the scoped set_param_rule path IS modelled (Model/CalcScope.v) and compared cell by cell",
     "Calculator.change on a non-optimiser cell (ConstCell rank) or with a repeated index: outside wf_op; compared "
     "model-vs-implementation only (the model reproduces the stale result of the dead `undo is invalid` guard, see "
     "Proofs/CalcProofs.v nonparameter_change_undo_stale)",
